@@ -14,7 +14,7 @@
 (* restoring (compile_string restores only on success).  After the session *)
 (* ("bad" phase) valid MOF is compiled on the same object ("good" phase).  *)
 (*                                                                         *)
-(* TLC runs this machine for EVERY session of Sessions(MaxProd, OnlyKinds)   *)
+(* TLC runs this machine for EVERY session of SessionParts(MaxProd, OnlyKinds)*)
 (* and checks                                                              *)
 (*   ImplRefinesReq   the outcome is admissible for the requirement        *)
 (*   PositionFileOK   an error names the file its production stands in     *)
@@ -24,18 +24,17 @@
 (* interpreter's recursion limit (MaxDepth): RecursionError, not admissible*)
 (* = design-level counterexample.                                          *)
 (*                                                                         *)
-(* POSTCONDITION Export writes the enumerated sessions (the behaviours the *)
-(* harness replays on the real compiler) and the focus catalogue to        *)
-(* IOEnv.SESS_FILE / IOEnv.FOCUS_FILE.                                     *)
+(* MofCompileMC.tla adds the export of the enumerated sessions (= the      *)
+(* behaviours the harness replays on the real compiler).                   *)
 (***************************************************************************)
-EXTENDS MofCompileImplOps, Json, IOUtils, SequencesExt
+EXTENDS MofCompileImplOps
 
 CONSTANTS MaxProd, MaxDepth, OnlyKinds
 
 VARIABLES ses, phase, stack, pfile, emb, nsw, out, errfile, errowner, lost
 vars == <<ses, phase, stack, pfile, emb, nsw, out, errfile, errowner, lost>>
 
-AllSessions == Sessions(MaxProd, OnlyKinds)
+Parts == SessionParts(MaxProd, OnlyKinds)
 
 GoodText == <<PlainOf("qualDecl"), PlainOf("class"), PlainOf("instance")>>
 GoodFile == 9
@@ -44,7 +43,7 @@ ProdsOf(f) == IF f = 1 THEN ses.main ELSE IF f = 2 THEN ses.inc ELSE GoodText
 
 Frame(f, saved) == [f |-> f, pc |-> 1, saved |-> saved]
 
-Init == /\ ses \in AllSessions
+Init == /\ \E i \in DOMAIN Parts : ses \in Parts[i]
         /\ phase = "bad"
         /\ stack = <<Frame(1, 0)>>
         /\ pfile = 1
@@ -127,9 +126,4 @@ PositionFileOK == (out \in MOFErrors) => errfile = errowner
 Reusable == (phase \in {"good", "end"} /\ out # "") => (out = "ok" /\ ~lost)
 Termination == <>(phase = "end")
 
-(* ---- export of the enumerated sessions ------------------------------------*)
-Export ==
-  /\ ndJsonSerialize(IOEnv.SESS_FILE, SetToSeq(AllSessions))
-  /\ ndJsonSerialize(IOEnv.FOCUS_FILE, SetToSeq(Focus))
-  /\ PrintT(<<"EXPORT", Cardinality(AllSessions), Cardinality(Focus)>>)
 =============================================================================
